@@ -23,3 +23,11 @@
 //@   modifies ghost(ghaskv), ghost(gkv), ghost(gsetfail)
 
 package smtp
+//
+// The mail/line pump started per connection runs outside the connection's recover; it cannot panic
+// (property C01).
+//@ func (*Service).Handle$1
+//@   check safety
+//@   requires conn != nil && s != nil
+//@   modifies *
+//@   loop 1: invariant conn != nil && s != nil
